@@ -220,7 +220,19 @@ def recovery_child(arg):
     from vf import ffuncs
 
     install(arg["root"], arg["scenario"])
-    return {"f": outcome(fn_f(arg["scenario"]), arg["scenario"]), "g": outcome(fn_g(arg["scenario"]), arg["scenario"])}
+    res = {"f": outcome(fn_f(arg["scenario"]), arg["scenario"]), "g": outcome(fn_g(arg["scenario"]), arg["scenario"])}
+    if arg.get("forget"):
+        # at the very end: the call is forgotten (whatever the interrupted write left behind) and made once more
+        try:
+            if arg["scenario"] == "partition_chain":
+                ffuncs.chain.forget("s", 1)
+            else:
+                ffuncs.produce.forget("s")
+            res["forget"] = None
+        except Exception as e:
+            res["forget"] = "%s: %s" % (type(e).__name__, str(e)[:200])
+        res["f_after_forget"] = outcome(fn_f(arg["scenario"]), arg["scenario"])
+    return res
 
 
 # ---------------------------------------------------------------- enumeration
@@ -331,7 +343,7 @@ def run_case(case):
             runs = []
             for k in range(3):
                 try:
-                    runs.append(procs.in_child(recovery_child, {"root": root, "scenario": scenario}))
+                    runs.append(procs.in_child(recovery_child, {"root": root, "scenario": scenario, "forget": k == 2}))
                 except procs.ChildFailed as e:
                     fail("a fresh process on the damaged store dies " + sigbase, "%s: process %d: %s" % (label, k + 1, str(e)[-400:]))
                     break
@@ -343,6 +355,12 @@ def run_case(case):
                              "%s: fresh process %d, %s -> %s" % (label, k + 1, "the function" if who == "f" else
                                                                 "a second function with identical result bytes", r[who][2]))
             if len(runs) == 3:
+                out["obs"]["forgets_after_recovery"] += 1
+                if runs[2].get("forget") is not None:
+                    fail("after the fault, forgetting the call raises " + sigbase, "%s: forget in the third fresh process: %s" % (label, runs[2]["forget"]))
+                elif not runs[2]["f_after_forget"][0]:
+                    fail("after the fault a call fails or returns a wrong value " + sigbase,
+                         "%s: the call made after forgetting it -> %s" % (label, runs[2]["f_after_forget"][2]))
                 out["obs"]["recoveries_observed"] += 1
                 out["obs"]["recomputed_in_first_fresh_process"] += int(runs[0]["f"][1] > 0)
                 for who in ("f", "g"):
